@@ -80,6 +80,10 @@ void ezc3d::ParametersNS::GroupNS::Parameter::write(std::fstream &f, int groupId
         if (_data_type == DATA_TYPE::CHAR){
             if (_dimension.size() == 1){
                 f.write(_param_data_string[0].c_str(), static_cast<int>(_param_data_string[0].size())*static_cast<int>(DATA_TYPE::BYTE));
+                // The trailing spaces were removed when reading, pad back to the declared length
+                const char buffer = ' ';
+                for (size_t j=_param_data_string[0].size(); j<_dimension[0]; ++j)
+                    f.write(&buffer, static_cast<int>(DATA_TYPE::BYTE));
             } else {
                 writeImbricatedParameter(f, _dimension, 1);
             }
